@@ -79,7 +79,7 @@ vh::Outcome run_c03_t(const vh::Case& c, bool with_faults) {
                             auto h = (op.a % 4 == 0) ? lr.lock_shared()
                                    : (op.a % 4 == 1) ? lr.try_lock_shared()
                                    : (op.a % 4 == 2) ? lr.try_lock_shared_for(std::chrono::milliseconds(5))
-                                                     : lr.try_lock_shared_until(std::chrono::steady_clock::time_point::max());
+                                                     : lr.try_lock_shared_until((std::chrono::steady_clock::now() + std::chrono::milliseconds(50)));
                             if (!h) vrt::fail("null-handle", "lr_guarded shared acquisition returned a null handle");
                             r.got = vrt::now_step();
                             r.v1 = h->read();
@@ -257,7 +257,7 @@ vh::Outcome run_c04_t(const vh::Case& c) {
                             long cd0 = commits_done;
                             long b0 = vrt::me().blocking_ops;
                             typename COW::shared_handle s = (op.a % 4 == 0) ? cow.lock_shared() : (op.a % 4 == 1) ? cow.try_lock_shared()
-                                                 : (op.a % 4 == 2) ? cow.try_lock_shared_for(std::chrono::milliseconds(1)) : cow.try_lock_shared_until(std::chrono::steady_clock::time_point::max());
+                                                 : (op.a % 4 == 2) ? cow.try_lock_shared_for(std::chrono::milliseconds(1)) : cow.try_lock_shared_until((std::chrono::steady_clock::now() + std::chrono::milliseconds(50)));
                             if (vrt::me().blocking_ops != b0) vrt::fail("reader-blocked", "a cow_guarded read acquisition executed a blocking operation");
                             if (!s) vrt::fail("null-handle", "cow_guarded shared acquisition returned null");
                             uint64_t v1 = s->read();
